@@ -194,10 +194,77 @@ pub fn judge_with_at(c: &Case, x: &Vec<u8>, st: &mut Stats, deep: bool) -> Verdi
 
 pub fn judge(c: &Case, st: &mut Stats) -> Verdict {
     // parsed from this thread's reusable read buffer (same start address for consecutive cases)
-    crate::engine::in_arena(&c.input, |v| judge_with_at(c, v, st, true))
+    crate::engine::in_arena(&c.input, |v| judge_with_at(c, v, st, true))?;
+    // the same buffer reused at once for another connection whose first segment has the SAME size but announces another
+    // length (and, half of the time, another family / command): an answer remembered per (buffer, size) would be stale
+    if c.input.len() >= 16 {
+        let mut y = c.input.clone();
+        let have = y.len() - 16;
+        let old = ((y[14] as usize) << 8) | y[15] as usize;
+        let mut l2 = (have + 1 + (c.fill_seed as usize % 977)).min(65535);
+        if l2 == old {
+            l2 = if l2 < 65535 { l2 + 1 } else { l2 - 1 };
+        }
+        y[14] = (l2 >> 8) as u8;
+        y[15] = l2 as u8;
+        if c.fill_seed & 0x100 != 0 {
+            y[12] = 0x20 | (c.fill_seed as u8 >> 7 & 1);
+            y[13] = ((c.fill_seed >> 9) as u8 % 4) << 4 | ((c.fill_seed >> 11) as u8 % 3);
+        }
+        let c2 = Case { input: y, fill_seed: c.fill_seed ^ 0x5a5a };
+        st.class("same-size-follow-up");
+        // the receiver's last look at the first connection's segment (still short), then the buffer is handed to the next one
+        crate::engine::in_arena(&c.input, |v| {
+            let _ = imp::v2_parse(v);
+        });
+        crate::engine::in_arena(&c2.input, |v| judge_with_at(&c2, v, st, true))?;
+    }
+    Ok(())
+}
+
+/// A complete, well-formed header whose length field is written little-endian (a host-order sender). Where the swapped
+/// value is larger than the payload the input reads as a truncated header with exactly `payload` bytes present.
+fn little_endian_length(t: &mut Tape) -> Vec<u8> {
+    let fam = 1 + t.below(3) as u8;
+    let need = crate::oracle::v2::NEED[fam as usize];
+    let mut payload = gen::gen_addr_block(t, fam);
+    match t.below(3) {
+        0 => payload.extend(gen::tlv_run(t.u32() | 3, t.usize_in(3, 60))),
+        1 => {
+            // whole TLVs only
+            let n = t.usize_in(1, 5);
+            for _ in 0..n {
+                let kind = *t.pick(&[0x01u8, 0x02, 0x03, 0x04, 0x05, 0x20, 0x21, 0x22, 0x30]);
+                let len = *t.pick(&[0usize, 1, 4, 4, 7, 32]);
+                payload.push(kind);
+                payload.extend_from_slice(&(len as u16).to_be_bytes());
+                payload.extend(fill(crate::engine::gen_seed(t), len));
+            }
+        }
+        _ => payload.extend(gen::enc_tlv_list(&gen::gen_tlv_list(t, 300))),
+    }
+    let _ = need;
+    let mut h = SIG.to_vec();
+    h.push(0x20 | t.below(2) as u8);
+    h.push((fam << 4) | t.below(3) as u8);
+    h.extend_from_slice(&(payload.len() as u16).to_le_bytes());
+    h.extend_from_slice(&payload);
+    h
 }
 
 fn gen_case(t: &mut Tape) -> Case {
+    if t.chance(1, 12) {
+        let mut h = little_endian_length(t);
+        match t.below(4) {
+            0 => {
+                h.pop();
+            }
+            1 => h.push(0),
+            _ => {}
+        }
+        let fill_seed = if t.chance(1, 3) { t.u32() | 3 } else { crate::engine::gen_seed(t) };
+        return Case { input: h, fill_seed };
+    }
     let h = match t.weighted(&[6, 2, 2]) {
         0 => gen::gen_v2_header(t).bytes,
         1 => {
